@@ -26,7 +26,7 @@ ASSUMPTIONS = ["inputs are clean by construction and re-checked before use (harn
                "rewire() is unwound by logical budgets (thorough: proposals <= 3000*limit + 200000 and a stall window of 100000 proposals without an accepted swap; quick: 60000 proposals, stall window 15000; draws <= 50x the proposal budget); everything observed up to a stop is checked, the run is recorded as stopped",
                "a shape failure is attributed to the known finding K1 only if every shape-breaking swap carries the K1 signature"]
 HEADLINE = ["runs", "accepted_swaps", "proposals", "sig_K1", "sig_ideal", "sig_other", "shape_fail_K1", "shape_ok_swaps", "self_loop_corner_proposals",
-            "default_limit_runs", "reused_object_runs", "list_annotation_runs", "rewire_again_after_in_place_edit_of_the_network", "rewire_calls_aborted_by_injected_fault", "runs_on_vertex_objects", "runs_on_a_frozen_input_graph", "runs_with_isolated_vertices", "adopted_working_graphs", "stopped_runs", "drawset_invariant_evals", "input_events", "created_edges"]
+            "default_limit_runs", "reused_object_runs", "list_annotation_runs", "rewire_again_after_in_place_edit_of_the_network", "rewire_calls_aborted_by_injected_fault", "targets_with_tiny_positive_weights", "runs_on_vertex_objects", "runs_on_a_frozen_input_graph", "runs_with_isolated_vertices", "adopted_working_graphs", "stopped_runs", "drawset_invariant_evals", "input_events", "created_edges"]
 REQUIRED = {"quick": {"accepted_swaps": 2000, "self_loop_corner_proposals": 20, "default_limit_runs": 5, "hooks_installed": 100, "two_name_runs": 3, "runs_with_isolated_vertices": 10},
             "thorough": {"accepted_swaps": 100000, "self_loop_corner_proposals": 500, "default_limit_runs": 100, "hooks_installed": 1000, "two_name_runs": 50, "runs_with_isolated_vertices": 100}}
 SHARD_TIMEOUT = {"quick": 900, "thorough": 14400}
@@ -126,7 +126,7 @@ def make_network(rng, fam, N, ids="shuffled", assort=0.0, graph_cls=MonitoredGra
     families = FAMILIES[fam]
     T = len(families)
     k = rng.choice([2, 3, 3, 4])
-    base = [[2, 1], [1, 2], [3, 1], [2, 2]]
+    base = [[2, 1], [1, 2], [3, 1], [2, 2], [0, 2], [2, 0], [0, 1]]      # incl. vertices that take part in only one of the two topologies
     if T == 1:
         classes = [(x,) for x in rng.sample([1, 2, 3, 4], k)]
     else:
@@ -191,7 +191,17 @@ def run_rewire(res, G, names, T, params_extra, seed, budget_scale=1.0, ctx=None,
         import types
         tmap = {n: types.MappingProxyType(dict(T[n])) for n in order}
         res.count("targets_given_as_read_only_mappings")
-    tm = sut("JointExcessJointDegreeMatrices(target)", gcmpy.JointExcessJointDegreeMatrices, {TN.EJKS: tmap, TN.EDGE_NAMES: list(names)})
+    names_obj = list(names)        # the caller's own list object, handed to every library helper that wants the topology names
+    tm = sut("JointExcessJointDegreeMatrices(target)", gcmpy.JointExcessJointDegreeMatrices, {TN.EJKS: tmap, TN.EDGE_NAMES: names_obj})
+    if seed % 3 == 0 or (ctx or {}).get("kind") == "approach":
+        # the pipeline of the library's own rewiring test, run before rewiring: target matrices -> excess distributions -> joint
+        # degree distribution, every step given the caller's ONE names list
+        try:
+            qk = gcmpy.JointExcessFromEjk.get_excess_joint_distributions(tm)
+            gcmpy.JointDegreeFromExcess.get_joint_degree_distribution(qk, names_obj)
+            res.count("pipeline_run_on_the_target_before_rewiring")
+        except Exception:
+            res.count("pipeline_steps_that_raised")
     params = {TN.NETWORK: net, TN.EJKS: tm}
     params.update(params_extra)
     if seed % 7 == 2:
@@ -301,6 +311,17 @@ def run_case(case):
         raise RuntimeError("builder produced an unclean network: " + why)
     kind = rng.choice(["uniform", "product", "assortative"])
     T = make_target(rng, G, names, kind)
+    if rng.random() < 0.2:
+        # full support, however small: some pairings (both orientations) carry a weight 1e-14..1e-30 times the others
+        sc = rng.choice([1e-14, 1e-20, 1e-30])
+        for t in names:
+            for k_ in list(T[t]):
+                h = len(k_) // 2
+                if k_[:h] <= k_[h:] and rng.random() < 0.4:
+                    T[t][k_] *= sc
+                    if k_[h:] + k_[:h] in T[t] and k_[h:] != k_[:h]:
+                        T[t][k_[h:] + k_[:h]] = T[t][k_]
+        res.count("targets_with_tiny_positive_weights")
     extra = {}
     if default_limits:
         res.count("default_limit_runs")
